@@ -218,6 +218,8 @@ def concrete_playback(crate, harness, cbmc_args=(), features=None, timeout=900, 
         for vm in re.finditer(r"vec!\[([^\]]*)\]", body):
             s = vm.group(1).strip()
             vals.append([int(x) for x in s.split(",") if x.strip()] if s else [])
+        if m.group(1) == "cover":
+            continue
         tests.append({"check": m.group(1) + ": " + m.group(2).strip().strip('"'), "bytes": vals})
     return tests
 
